@@ -2,7 +2,7 @@
    Models: Util/Graph.v (transpose, matrix_closure, tarjan, longest_path mirror the Go code);
    certifying checkers: Util/GraphSpec.v.  Only theorem statements, examples, Print Assumptions. *)
 From Coq Require Import List Bool Arith.
-From TM Require Import Util.Graph Util.Graph_proofs Util.GraphSpec Util.GraphSpec_proofs.
+From TM Require Import Util.Graph Util.Graph_proofs Util.GraphSpec Util.GraphSpec_proofs Util.Tarjan_proofs Util.LongestPath_proofs.
 Import ListNotations.
 
 (* Transposition reverses every edge, with multiplicity, and invents none. *)
@@ -46,6 +46,65 @@ Theorem C26_onstack_contract :
   (nth w on false = true <-> In w comp).
 Proof. exact check_onstack_spec. Qed.
 
+(* Tarjan, the algorithm itself (direct invariant proof over index / lowlink / stack / onStack with the
+   active call chain as ghost state, Util/Tarjan_proofs.v): for EVERY graph with >= 2 vertices whose edges
+   name existing vertices, the step-by-step model of tarjan.go (strongConnect with its fuel n+1)
+   never runs out of fuel, ends with an empty stack, and its callbacks report every vertex in exactly one
+   component, every component strongly connected, no earlier component reaching a later one (reverse
+   topological order; with the partition this makes the components exactly the SCCs, see
+   C26_scc_are_the_strongly_connected_components), and the onStack argument marks, among the successors
+   of the component's vertices, exactly the members of the component. *)
+Theorem C26_tarjan_spec :
+  forall g, graph_wf g = true -> 2 <= length g ->
+  t_oof (tarjan_run g) = false /\
+  t_stack (tarjan_run g) = [] /\
+  scc_output_ok g (map fst (tarjan g)) /\
+  (forall comp on v w, In (comp, on) (tarjan g) -> In v comp -> In w (nth v g []) ->
+     (nth w on false = true <-> In w comp)).
+Proof. exact tarjan_spec. Qed.
+
+(* the pre/post specification of one strongConnect call from which the above follows *)
+Theorem C26_strong_connect_spec :
+  forall g, graph_wf g = true -> forall f gr v s,
+  Pre g f gr v s -> Post g gr v s (strong_connect f g v s).
+Proof. exact strong_connect_spec. Qed.
+
+(* consequently the model's output always passes the certificates (which are complete for the spec) *)
+Theorem C26_tarjan_passes_certificates :
+  forall g, graph_wf g = true -> 2 <= length g ->
+  check_scc g (map fst (tarjan g)) = true /\ check_onstack g (tarjan g) = true.
+Proof. exact tarjan_passes_certificates. Qed.
+
+Theorem C26_scc_certificate_complete :
+  forall g comps, scc_output_ok g comps -> check_scc g comps = true.
+Proof. exact check_scc_complete. Qed.
+
+(* the early return of the Go code: fewer than two vertices, nothing reported *)
+Theorem C26_tarjan_small : forall g, length g < 2 -> tarjan g = [].
+Proof. exact tarjan_small. Qed.
+
+(* LongestPath, the algorithm itself (Util/LongestPath_proofs.v, invariant over height/link/cycle with the
+   active call chain as ghost state): for EVERY graph with >= 1 vertex whose edges name existing vertices,
+   the step-by-step model of path.go (dfs with its fuel n+2, the driver loop choosing `first`, the link walk)
+   returns None exactly when the graph has a cycle, and otherwise a real path that no path of the graph
+   exceeds in number of vertices. *)
+Theorem C26_longest_path_spec :
+  forall g, graph_wf g = true -> 1 <= length g -> longest_ok g (longest_path g).
+Proof. exact longest_path_spec. Qed.
+
+Theorem C26_longest_path_dfs_spec :
+  forall g, graph_wf g = true -> forall f gr i s,
+  PPre g f gr i s -> PPost g gr i s (lp_dfs f g i s).
+Proof. exact lp_dfs_spec. Qed.
+
+Theorem C26_longest_path_passes_certificate :
+  forall g, graph_wf g = true -> 1 <= length g -> check_longest g (longest_path g) = true.
+Proof. exact longest_path_passes_certificate. Qed.
+
+(* the zero-vertex graph: the Go code returns the empty (nil) slice, which is also its "cycle" answer *)
+Theorem C26_longest_path_empty : longest_path [] = Some [].
+Proof. exact longest_path_empty. Qed.
+
 (* non-vacuity: the model of Tarjan/LongestPath run on a concrete graph passes the certificates *)
 Example C26_example :
   let g := [[1]; [2; 3]; [0]; [4]; []] in
@@ -56,6 +115,10 @@ Example C26_example :
   check_longest [[1; 2]; [2]; [3]; []] (Some [0; 1; 2; 3]) = true.
 Proof. vm_compute. repeat split; reflexivity. Qed.
 
+(* non-vacuity of the hypotheses of C26_tarjan_spec *)
+Example C26_tarjan_spec_hyps : let g := [[1]; [2; 3]; [0]; [4]; []] in graph_wf g = true /\ 2 <= length g.
+Proof. vm_compute. split; [reflexivity|repeat constructor]. Qed.
+
 Print Assumptions C26_transpose_reverses_every_edge.
 Print Assumptions C26_transpose_invents_no_vertex.
 Print Assumptions C26_closure_is_reachability.
@@ -63,3 +126,12 @@ Print Assumptions C26_scc_certificate_sound.
 Print Assumptions C26_scc_are_the_strongly_connected_components.
 Print Assumptions C26_longest_path_certificate_sound.
 Print Assumptions C26_onstack_contract.
+Print Assumptions C26_tarjan_spec.
+Print Assumptions C26_strong_connect_spec.
+Print Assumptions C26_tarjan_passes_certificates.
+Print Assumptions C26_scc_certificate_complete.
+Print Assumptions C26_tarjan_small.
+Print Assumptions C26_longest_path_spec.
+Print Assumptions C26_longest_path_dfs_spec.
+Print Assumptions C26_longest_path_passes_certificate.
+Print Assumptions C26_longest_path_empty.
